@@ -543,7 +543,8 @@ GraphRecord(s, t, ign) ==
   IN [rec |-> "graph", shape |-> s.id, truth |-> t, ignoreAnn |-> ign,
       mustKeep |-> ren(ProbesOf(Gr, keep)),
       mayVanish |-> ren(ProbesOf(Gr, all \ keep)) \cup (IF t = "ann" /\ ~ign THEN {"F.ann"} ELSE {}),
-      native |-> ren(ProbesOf(Gr, all)) \cup (IF t = "ann" THEN {"F.ann"} ELSE {}),
+      \* (a shape without a slot -- CommonJS target -- does not contain the statement at all)
+      native |-> ren(ProbesOf(Gr, all)) \cup (IF t = "ann" /\ s.slotFile # 0 THEN {"F.ann"} ELSE {}),
       \* may an ANNOTATED probe inside a statement that otherwise must stay vanish?
       annKeep |-> ign /\ <<s.slotFile, SlotIdx>> \in keepE,
       \* is the slot statement one that the bundle must execute if it has an effect?
